@@ -61,7 +61,12 @@ impl C11 {
 }
 
 pub fn mk(width: u8, reserved: u32, spc: u32, slack: u32, name: &str) -> Cfg {
+    mk_ext(width, reserved, spc, slack, 0, name)
+}
+
+pub fn mk_ext(width: u8, reserved: u32, spc: u32, slack: u32, ext_flags: u16, name: &str) -> Cfg {
     let mut s = MkSpec::new(width);
+    s.ext_flags = ext_flags;
     s.spc = spc;
     s.reserved = reserved;
     s.slack_sectors = slack;
@@ -93,6 +98,9 @@ pub fn specs(tier: &str) -> Vec<ExpSpec> {
     cfgs.push((mk(12, 4, 1, 0, "b12-res4-tail"), 512));
     cfgs.push((mk(16, 4, 1, 0, "b16-res4-tail"), 512));
     cfgs.push((mk(32, 32, 1, 0, "b32-res32-tail"), 512));
+    // mirroring enabled with a stale non-zero active-copy number (only meaningful when mirroring is off): the
+    // table still starts at copy 0 and every copy is kept up to date
+    cfgs.push((mk_ext(32, 32, 1, 0, 0x0001, "b32-res32-mirror-stale-active1-tail"), 512));
     cfgs.push((mk(12, 1, 4, 3, "b12-spc4-slack3-tail"), 2048));
     cfgs.push((mk(32, 32, 8, 7, "b32-spc8-slack7-tail"), 4096));
     let mut v = Vec::new();
